@@ -72,6 +72,9 @@ pub enum Col {
     Full,
     /// entry number (unique)
     Seq,
+    /// entry number, but the last sixteenth of the entries repeat the values of earlier entries (never the first one):
+    /// duplicates arriving after many distinct values
+    SeqDup,
     /// arrays: length up to `max`, over `alpha` symbols (0 = all 256 byte values), sharing prefixes
     Arr { max: u32, alpha: u8 },
     /// arrays: lengths exactly around the inline prefix (prefix-1, prefix, prefix+1, 0)
@@ -167,6 +170,7 @@ fn col_to_json(c: &Col) -> Value {
         Col::ArrAroundPrefix => json!("arr_prefix"),
         Col::ArrLen256 => json!("arr_len256"),
         Col::ArrLong => json!("arr_long"),
+        Col::SeqDup => json!("seq_dup"),
         Col::Content { packs, maxid } => json!({"content": [packs, maxid]}),
         Col::Tree(b) => json!({"tree": b}),
         Col::RefPat(p) => json!({"ref": match p {
@@ -185,6 +189,7 @@ fn col_from_json(v: &Value) -> Col {
             "arr_prefix" => Col::ArrAroundPrefix,
             "arr_len256" => Col::ArrLen256,
             "arr_long" => Col::ArrLong,
+            "seq_dup" => Col::SeqDup,
             _ => Col::Small,
         };
     }
@@ -457,6 +462,11 @@ pub fn expand(case: &DirCase, si: usize) -> Vec<EntryModel> {
                     Val::A(a)
                 }
                 (PKind::Array { .. }, Col::Seq) => Val::A(format!("k{e:07}").into_bytes()),
+                (PKind::Array { .. }, Col::SeqDup) => {
+                    let fresh = n - n / 16;
+                    let src = if e < fresh || fresh < 2 { e } else { 1 + (e.wrapping_mul(2_654_435_761) % (fresh - 1)) };
+                    Val::A(format!("k{src:07}").into_bytes())
+                }
                 (PKind::Array { .. }, Col::Arr { max, alpha }) => {
                     let a = gen_array(&mut rng, *max, *alpha, &shared);
                     if shared.len() < 64 {
